@@ -150,8 +150,32 @@ def grids(draw, tier):
     return case
 
 
+_SMALL_VALUES = [0, 1, 2, 7]
+
+
+def small_size(tier):
+    return len(_SMALL_VALUES) ** 4 * (2 if tier == 'quick' else 6)
+
+
+def small_case(tier, idx):
+    n = len(_SMALL_VALUES) ** 4
+    variant, idx = idx // n, idx % n
+    vals = []
+    for _ in range(4):
+        vals.append(_SMALL_VALUES[idx % len(_SMALL_VALUES)])
+        idx //= len(_SMALL_VALUES)
+    if not any(vals):
+        vals[0] = 1
+    shape = [(2, 2, 1), (1, 4, 1), (4, 1, 1), (1, 2, 2), (2, 1, 2), (1, 1, 4)][variant]
+    lat = {'family': 'cubic', 'orient': 'lower', 'params': [5, 5, 5, 90, 90, 90], 'matrix': [[5.0, 0, 0], [0, 5.0, 0], [0, 0, 5.0]]}
+    return {'lattice': lat, 'dtype': ['int64', 'float64'][variant % 2], 'layout': 'C', 'data': np.array(vals).reshape(shape).tolist(), 'temperature': [1.5, 300.0, 2000.0][variant % 3]}
+
+
 SUBS = [
     Sub(name='free-energy', kind='hyp', run=run, strategy=grids,
         rule='density grids (1-6)^3, dtypes int64/int32/float64/float32, zeros, dynamic range to 1e12, T in (1,2000], second density assigned/accumulated on the same Volume; graphs at thresholds default/1e7/median with and without diagonal moves',
         n={'quick': 250, 'thorough': 6000}, shards={'quick': 12, 'thorough': 16}),
+    Sub(name='enum-small-grids', kind='enum', run=run, size=small_size, case_at=small_case, exhaustive=True,
+        rule='complete enumeration: every 4-voxel density over the counts {0, 1, 2, 7} in grid shapes (2,2,1), (1,4,1) (quick) + four more (thorough), alternating int64 / float64 and three temperatures',
+        shards={'quick': 8, 'thorough': 16}),
 ]
